@@ -350,7 +350,8 @@ class Translator:
             raise Untranslatable(f'{REL}: JsonWriter._write_content not found')
         body = [s for s in wc.body if not is_doc(s)]
         if wc.decorator_list or ast.unparse(wc.args) != 'self, d: dict' or \
-                [self.blank(s) for s in body] != [self.blank(s) for s in ast.parse(WRITE_CONTENT).body]:
+                gen.alpha_dump([ast.parse(self.blank_src(s)).body[0] for s in body]) != \
+                gen.alpha_dump([ast.parse(self.blank_src(s)).body[0] for s in ast.parse(WRITE_CONTENT).body]):
             self.bad(wc, 'JsonWriter._write_content is not the pinned text (json.dumps(d, indent=None), a separator, the line)')
         for c in WRITERS:
             extra = set(self.members[c]) - {'__init__', 'write'}
@@ -371,11 +372,20 @@ class Translator:
                 n.value = ''
         return ast.dump(t)
 
+    @staticmethod
+    def blank_src(stmt):
+        """The statement, as source text, with every string literal replaced by the empty string."""
+        t = ast.parse(ast.unparse(stmt)).body[0]
+        for n in ast.walk(t):
+            if isinstance(n, ast.Constant) and isinstance(n.value, str):
+                n.value = ''
+        return ast.unparse(t)
+
     # ---------------------------------------------------------------- pins on the library
     def same_text(self, m, decos, params, body, node, msg):
         got = [s for s in m.body if not is_doc(s)]
         if [ast.unparse(d) for d in m.decorator_list] != decos or ast.unparse(m.args) != params or \
-                [ast.dump(s) for s in got] != [ast.dump(s) for s in ast.parse(body).body]:
+                gen.alpha_dump(got) != gen.alpha_dump(ast.parse(body).body):
             self.bad(node, msg)
 
     def find_class(self, rel, cls, node):
@@ -1543,10 +1553,11 @@ def gen_jsonw_fns(path=None, overrides=None):
     if path is not None:
         _SRC[REL] = path
     try:
-        tr = Translator(parse(REL))
+        # extract-function normal form first (gen.py): a private module-level helper that only returns an expression is read through
+        tr = Translator(gen.inline_private_functions(parse(REL)))
         defs = tr.run()
         tables = tr.tables()
-        pt = ParserTranslator(parse(REL2))
+        pt = ParserTranslator(gen.inline_private_functions(gen.normalise_ifs(parse(REL2), 'expr')))
         defs2 = pt.run()
         tables2 = pt.tables2(tr.used_names)
     finally:
